@@ -37,7 +37,7 @@ def parseOp (j : Json) : Except String Op := do
     let t ← match ← (at_ a 1).getStr? with
       | "models" => pure Tbl.models | "meta" => pure Tbl.metadata | k => throw s!"bad-table {k}"
     let how ← match ← (at_ a 2).getStr? with
-      | "drop" => pure LayoutDamage.drop | "alien" => pure .alien | "nopk" => pure .noPk
+      | "drop" => pure LayoutDamage.drop | "alien" => pure .alien | "nopk" => pure .noPk | "extracol" => pure .extraCol
       | "delcreated" => pure .delCreated | "delprune" => pure .delPrune | k => throw s!"bad-damage {k}"
     pure (.corruptLayout t how)
   | "cfile" => do
@@ -66,7 +66,7 @@ def snapJson : DbFile → Json
     let mj := match m with
       | none => Json.null
       | some mm =>
-        let lay := match mm.layout with | .ok => "ok" | .noPk => "nopk" | .alien => "alien"
+        let lay := match mm.layout with | .ok => "ok" | .noPk => "nopk" | .extraCol => "extracol" | .alien => "alien"
         Json.mkObj [("layout", lay),
           ("rows", Json.arr ((if mm.layout = .alien then [] else mm.rows).map fun r =>
             Json.arr #[Json.num (r.key : Int), Json.num (r.ver : Int), blobJson r.blob, Json.num r.lastHit]).toArray)]
@@ -102,7 +102,8 @@ def handle (req : Json) : Except String Json := do
     let t0 ← getInt req "t0"
     let ops ← (← getArr req "ops").toList.mapM parseOp
     let recover := (req.getObjValAs? Bool "recover").toOption.getD false
-    let cfg : Cfg := { caught := caught, recover := recover }
+    let tolerant := (req.getObjValAs? Bool "writeTolerant").toOption.getD false
+    let cfg : Cfg := { caught := caught, recover := recover, writeTolerant := tolerant }
     let outs := run cfg (pfOf tbl) (St.initial t0) ops
     let js := outs.map fun (s, r) =>
       Json.mkObj [("res", resJson r), ("snap", snapJson s.file), ("init", s.init), ("now", Json.num s.now)]
